@@ -88,6 +88,10 @@ class GeoCtx(object):
             self.bpoly = None
         self._wire = None
 
+    def nbrs(self, i):
+        """neighbours of column i as a list in columnlist order (deterministic)"""
+        return sorted(self.cols[i].neighbour, key=lambda c: self.index[id(c)])
+
     # ---- classification helpers ------------------------------------
     def edge_clearance(self, pos):
         """(distance to the nearest column edge) / (tolerance of that edge); < 1 means too close."""
@@ -119,7 +123,7 @@ class GeoCtx(object):
             allE = self.q.all_elements
             cf = []
             for c in self.cols:
-                nb = [self.index[id(n)] + 1 for n in (c.neighbour & allE)]
+                nb = sorted(self.index[id(n)] + 1 for n in (c.neighbour & allE))
                 sf = c.surface if c.surface is not None else g.layerlist[0].bottom
                 cf.append(ptstr(c.centre) + ';' + q2(sf) + ';' + ' '.join(map(str, nb)) + ';' +
                           ' '.join(ptstr(p) for p in c.polygon))
